@@ -751,9 +751,13 @@ func ruleC13Lock(r *Run, p *Program, rule string) {
 	}
 	// the lock file is opened without O_TRUNC/O_EXCL/O_APPEND tricks: an opener that is about to lose must not have
 	// modified the owner's file by merely opening it
+	otrunc, okTrunc := osConst(p, "O_TRUNC")
+	if !okTrunc {
+		otrunc = 0x200
+	}
 	for _, o := range opens {
 		fl, isc := constInt(o.Call.Args[1])
-		r.check(isc && fl&0x200 == 0, rule, "fs.createLockFile[unix]:open-flags", p.Pos(o.Pos()), "the lock file is opened without O_TRUNC", fmt.Sprintf("the lock file is opened with flags %#x including O_TRUNC: a competing Open empties the live owner's lock file before it fails with the locked error (a failed Open changes the directory)", fl))
+		r.check(isc && fl&otrunc == 0, rule, "fs.createLockFile[unix]:open-flags", p.Pos(o.Pos()), "the lock file is opened without O_TRUNC", fmt.Sprintf("the lock file is opened with flags %#x including O_TRUNC: a competing Open empties the live owner's lock file before it fails with the locked error (a failed Open changes the directory)", fl))
 	}
 	// exclusive, non-blocking
 	how, _ := constInt(flock.Call.Args[1])
